@@ -166,10 +166,13 @@ func getStartCodePositions(stream []byte) (scNalus []scNalu, minStartCodeLength 
 func ConvertSampleToByteStream(sample []byte) []byte {
 	sampleLength := uint32(len(sample))
 	var pos uint32 = 0
-	for pos < sampleLength {
+	for uint64(pos)+4 <= uint64(sampleLength) {
 		naluLength := binary.BigEndian.Uint32(sample[pos : pos+4])
 		startCode := []byte{0, 0, 0, 1}
 		copy(sample[pos:pos+4], startCode)
+		if uint64(pos)+4+uint64(naluLength) > uint64(sampleLength) {
+			break // NALU length field points outside the sample
+		}
 		pos += naluLength + 4
 	}
 	return sample
